@@ -28,6 +28,9 @@ void harness::run_case(const eng::Raw& raw, eng::Ctx& ctx)
 		bool deep = false;
 		for (auto& r : ta.rules) if (!r.ch.empty()) deep = true;
 		ctx.nontrivial(deep && !c.B.empty_lang());
+		if (c.A.empty_lang()) ctx.tag("A-empty");
+		if (c.B.empty_lang()) ctx.tag("B-empty");
+		if (!deep && !c.A.empty_lang()) ctx.tag("A-leaves-only");
 	}
 	const bool want = (expect.verdict == ref::Tri::YES);
 
